@@ -19,7 +19,7 @@ use vcore::{Run, Tier, Violation, util};
 use vstore::fix::{Wrap, build, payload};
 use vstore::hist::apply_tracked;
 use vstore::ops::{Book, Mode, Op, alphabet, applicable};
-use vstore::tamper::{chunk_nonce, get_field, leaks};
+use vstore::tamper::{chunk_nonce, get_field, open_chunk};
 
 const WINDOW: usize = 8;
 
@@ -33,6 +33,7 @@ struct HistOut {
     windows_checked: u64,
     meta_docs: u64,
     chunks: u64,
+    chunks_opened: u64,
     violations: Vec<Violation>,
     sample: Option<serde_json::Value>,
 }
@@ -70,6 +71,16 @@ fn run_history(wrap: Wrap, hist: &[Op], clock: u64, want_sample: bool) -> HistOu
         }
     });
     let plains = plaintexts(hist);
+    // every 8-byte window of every plaintext, built once per history
+    let window_sets: Vec<std::collections::HashSet<&[u8]>> = plains.iter().map(|p| p.windows(WINDOW).collect()).collect();
+    let all_plains: Vec<bytes::Bytes> = hist
+        .iter()
+        .filter_map(|op| match op {
+            Op::Put { size, var, .. } => Some(payload(*size as usize, *var)),
+            Op::Multi { parts, var, .. } => Some(payload(parts.iter().sum::<u32>() as usize, *var)),
+            _ => None,
+        })
+        .collect();
     let viol = |what: &str, text: String| Violation {
         signature: format!("C09/leak/{what}"),
         summary: format!(
@@ -94,9 +105,9 @@ fn run_history(wrap: Wrap, hist: &[Op], clock: u64, want_sample: bool) -> HistOu
         };
         out.objects_scanned += 1;
         out.bytes_scanned += data.len() as u64;
-        for p in &plains {
+        for (p, set) in plains.iter().zip(&window_sets) {
             out.windows_checked += (p.len() + 1 - WINDOW) as u64;
-            if leaks(p, &data, WINDOW) {
+            if data.len() >= WINDOW && data.windows(WINDOW).any(|x| set.contains(x)) {
                 out.violations.push(viol(
                     if path.starts_with("meta/") { "plaintext-in-metadata" } else { "plaintext-in-payload-object" },
                     format!("backend object {path} ({} bytes) contains {WINDOW} consecutive plaintext bytes", data.len()),
@@ -151,6 +162,24 @@ fn run_history(wrap: Wrap, hist: &[Op], clock: u64, want_sample: bool) -> HistOu
                 let mut h = ct[a..b].to_vec();
                 if let cbor2::Value::Bytes(t) = tag {
                     h.extend_from_slice(t);
+                }
+                // the re-derived nonce must be the one the chunk was really
+                // encrypted under: open it with the harness' own cipher
+                let tag_bytes: &[u8] = if let cbor2::Value::Bytes(t) = tag { t } else { &[] };
+                match open_chunk(&ct[a..b], &n, cs, i as u64, tag_bytes) {
+                    None => out.violations.push(viol(
+                        "chunk-not-under-derived-nonce",
+                        format!("{path}: chunk {i} of {gen_path} does not open under nonce n+{i} and the documented chunk AAD"),
+                    )),
+                    Some(plain) => {
+                        out.chunks_opened += 1;
+                        if !all_plains.iter().any(|p| p.len() == ct.len() && p[a..b] == plain[..]) {
+                            out.violations.push(viol(
+                                "chunk-opens-to-unknown-plaintext",
+                                format!("{path}: chunk {i} of {gen_path} opens to bytes no operation of the history wrote at that offset"),
+                            ));
+                        }
+                    }
                 }
                 let nonce = chunk_nonce(&n, i as u64);
                 let mut x = [0u8; 16];
@@ -279,6 +308,7 @@ fn main() {
                 run.add("backend_bytes_scanned", o.bytes_scanned);
                 run.add("metadata_documents_decoded", o.meta_docs);
                 run.add("chunk_nonces_derived", o.chunks);
+                run.add("chunks_opened_with_harness_cipher_under_derived_nonce", o.chunks_opened);
                 if let Some(s) = o.sample
                     && o.windows_checked > 0
                     && o.chunks > 1
@@ -330,7 +360,7 @@ fn main() {
     run.set("metadata_seal_nonces", json!({"collected": n_seal, "distinct": seal_nonces.len(), "note": "measured, not judged"}));
     run.rule(
         "histories = CORE* . FULL+ over keys {a, a/b, c} (C07's alphabet plus 8/24/40-byte puts and a 25-byte three-part upload), EncryptedStore over a journalling backend; \
-         every object version the backend ever received is scanned for every 8-byte window of every plaintext of the history; every metadata document written is decoded and the nonce of each chunk re-derived as n[0..4] || LE64(LE64(n[4..12]) + index); \
+         every object version the backend ever received is scanned for every 8-byte window of every plaintext of the history; every metadata document written is decoded and the nonce of each chunk re-derived as n[0..4] || LE64(LE64(n[4..12]) + index), and the chunk is opened with the harness' own AES-256-GCM instance under that nonce and the documented chunk AAD (so the derived nonce is the one really used) and must yield bytes the history wrote at that offset; \
          one nonce set for the whole run, a repeat is a violation unless ciphertext chunk and tag are identical (copies); distinct = distinct chunk nonces (capped at 200000 in the evidence counter)",
     );
     run.assume("the OS random generator behind rand::rng() does not repeat 96-bit values (real collision probability is not checked)");
